@@ -118,7 +118,7 @@ def run_case(case, ctx):
             ctx.viol("warmup-notification-count", {**where, "count": len(widx)})
             return
         wi = widx[0]
-        if tl[wi][2] != float(warm):
+        if tl[wi][2] != warm:
             ctx.viol("warmup-notification-timestamp", {**where, "got": tl[wi][2], "want": float(warm)})
             return
         for i, r in enumerate(tl):
@@ -132,7 +132,7 @@ def run_case(case, ctx):
                 ctx.viol("event-before-warmup-ran-after-the-warmup-notification", {**where, "event": r, "warmup": float(warm)})
                 return
         eidx = [i for i, r in enumerate(tl) if r[0] == "n" and r[1] == "END_REPLICATION_EVENT"]
-        if len(eidx) != 1 or tl[eidx[0]][2] != float(end):
+        if len(eidx) != 1 or tl[eidx[0]][2] != end:
             ctx.viol("end-replication-notification", {**where, "records": [tl[i] for i in eidx], "end": float(end)})
             return
         # ---- (4) retrievable under their key
